@@ -1,7 +1,7 @@
 """Runtime values of the MIR executor.  Scalars are z3 terms; everything with
 shape (structs, enums, sequences, maps) is a Python object whose *content* is symbolic."""
 import z3
-from .types import parse_type, Ty
+from .rtypes import parse_type, Ty
 
 
 class Unsupported(Exception):
